@@ -32,9 +32,10 @@ func verifC40BuildDescribe(s *Server) (arrow.RecordBatch, arrow.Metadata) {
 // the pages, read the protocol hash — from concurrent first requests.
 //
 //verif:sched quick=3 thorough=4
+//verif:race
 //verif:stub (*github.com/Query-farm/vgi-rpc-go/vgirpc.HttpServer).initPages = verifC40InitPages
 //verif:stub (*github.com/Query-farm/vgi-rpc-go/vgirpc.Server).buildDescribeBatch = verifC40BuildDescribe
-//verif:bound 2 (thorough: 2..3) concurrent first requests, each running notifyTransport(HTTP) -> InitPages -> ProtocolHash -> TransportKind as ServeHTTP and the dispatchers do, plus optionally a /health render; the serve-start hook is absent, succeeds, or fails its first 1..2 invocations and then succeeds, and may itself read TransportKind(); ALL interleavings at synchronisation points with at most 3 (4) preemptions. Page rendering and the describe batch are counters with a preemption point inside; plain-memory data races are NOT modelled (the race detector's subject)
+//verif:bound 2 (thorough: 2..3) concurrent first requests, each running notifyTransport(HTTP) -> InitPages -> ProtocolHash -> TransportKind as ServeHTTP and the dispatchers do, plus optionally a /health render; the serve-start hook is absent, succeeds, or fails its first 1..2 invocations and then succeeds, and may itself read TransportKind(); ALL interleavings at synchronisation points with at most 3 (4) preemptions. Page rendering and the describe batch are counters with a preemption point inside; a happens-before race detector watches every heap load and store of repository code on every explored schedule
 func verifH_C40_lazy_setup_once() {
 	verifC40Pages, verifC40Describes = 0, 0
 	s := &Server{serverID: "srv", methods: map[string]*methodInfo{}}
